@@ -1,2 +1,3 @@
 import PdeVerif.Drv.All
 import PdeVerif.Props.C09
+import PdeVerif.Props.C02
